@@ -106,7 +106,11 @@ def gen_program(rng, meta, n=None, kinds=None):
                                               -3.0000002, 63.9999996])})
         elif k == "density":
             o = rng.choice(meta["cells"])
-            prog.append({"kind": k, "orig": o, "value": rng.choice([1.5, 0.25, 10.0, 2.0e-2, 7.875, 2.71828, 3.5, 1.0000004]),
+            # one time in three the magnitude the cell has NOW is assigned again (value "same"), in either mode: a
+            # switch atom <-> mass density that keeps the number, or an assignment that changes nothing
+            prog.append({"kind": k, "orig": o,
+                         "value": "same" if rng.random() < 0.34 else
+                         rng.choice([1.5, 0.25, 10.0, 2.0e-2, 7.875, 2.71828, 3.5, 1.0000004]),
                          "atom": rng.random() < 0.5})
         elif k == "importance":
             o = rng.choice(meta["cells"])
@@ -262,11 +266,16 @@ def apply(h, e):
         c = h.cells[e["orig"]]
         if c.material is None:
             return False, []
+        v = e["value"]
+        if v == "same":
+            v = c.atom_density if c.is_atom_dens else c.mass_density
+            if v is None:
+                return False, []
         if e["atom"]:
-            c.atom_density = e["value"]
+            c.atom_density = v
         else:
-            c.mass_density = e["value"]
-        return True, [("value", 0, c.number, ("density", e["atom"]), e["value"])]
+            c.mass_density = v
+        return True, [("value", 0, c.number, ("density", e["atom"]), v)]
     if k == "importance":
         c = h.cells[e["orig"]]
         import montepy
